@@ -185,6 +185,36 @@ def ft3(prog, rr):
     for n in rets:
         if "v2e(" not in norm(n.value):
             rr.finding(gi, n, "list_t.__getitem__", "FT3: enum list read returns '%s' (no v2e conversion)" % norm(n.value))
+    # iteration over a scalar/enum list: the iterator's __next__ converts like indexing does
+    its = [g for g in prog.funcs if g.name == "__next__" and g.cls is not None and g.module.name == "vsc.types"
+           and any(isinstance(x, ast.Attribute) and x.attr == "field_l" for x in walk_local(g.node))]
+    rr.require(its, "scalar list iterator (__next__ reading model.field_l) not found")
+    for it in its:
+        rets2 = []
+
+        def ev4(node, st, dom, rets2=rets2):
+            if isinstance(node, ast.Return) and node.value is not None:
+                rets2.append(node)
+        specialise(it, None, None, None, on_event=ev4, assume={"self.l.is_enum": True, "self.is_enum": True})
+        rr.inst("%s.__next__ enum path returns: %d" % (it.cls.name, len(rets2)))
+        from sa.ir import expand_locals
+        def reaching(fnode, ret):
+            """text of the returned value, with a returned local replaced by its last assignment in the same block"""
+            t = expand_locals(fnode, ret.value)
+            if isinstance(ret.value, ast.Name):
+                for o in ast.walk(fnode):
+                    for fld in ("body", "orelse", "finalbody"):
+                        blk = getattr(o, fld, None)
+                        if isinstance(blk, list) and any(x is ret for x in blk):
+                            for st_ in reversed(blk[:blk.index(ret)]):
+                                if isinstance(st_, (ast.Assign, ast.AnnAssign)) and any(norm(tg) == ret.value.id for tg in
+                                                                                          (st_.targets if isinstance(st_, ast.Assign) else [st_.target])):
+                                    return norm(st_.value)
+            return t
+        for n in rets2:
+            if "v2e(" not in reaching(it.node, n):
+                rr.finding(it, n, "list_t.__iter__", "FT3: iterating an enum list returns '%s' (no v2e conversion) while indexing returns the enumerator: "
+                           "the two access paths disagree on the type of the value" % norm(n.value), text="iter no v2e")
 
 
 # --------------------------------------------------------------------------------------- FT4
